@@ -222,6 +222,7 @@ Definition UnitQuaternion_mul (lc : cls) (r : kind) : mres :=
   | KFloat | KInt => Out (Value (RObj Quaternion) Computed)
   | KArr s => if isvector s 3 then Out (Value RArray Computed)
               else if (n =? 1) && (hd0 s =? 3) && (2 <=? length s) then Out (Value RArray Computed)
+              else if (length s =? 2) && (hd0 s =? 3) && (n =? nth 1 s 0) then Out (Value RArray Computed)   (* fix e6aec7a: N quaternions, 3 x N points *)
               else Out Raise
   end.
 (* UnitQuaternion.__truediv__, :1666-1671.  UnitQuaternion(list) validates: for a right operand that is a plain
@@ -267,9 +268,13 @@ Definition Plucker_rmul (sc : cls) (l : kind) : mres :=                   (* :79
 (* __eq__ / __ne__ (after fix 2ec0dbf): a non-Plucker operand is a TypeError, otherwise element-wise through binop(list1=False) *)
 Definition Plucker_cmp (lc : cls) (r : kind) : mres :=
   match r with Obj rc => if isinst rc (C Plucker) then Out (Value (bools n) Computed) else Out Raise | _ => Out Raise end.
-(* :575 isparallel uses l2.w (a 3-vector): Plucker and Twist3 have it *)
+(* isparallel uses l2.w in np.cross: Plucker and Twist3 have a 3-vector (Twist3: one row per twist, which broadcasts); Twist2.w is a
+   scalar, but for a multi-valued Twist2 it is the array of its n angular parts (fix 77cb365) -- a 3-vector exactly when n = 3 *)
 Definition Plucker_or (lc : cls) (r : kind) : mres :=
-  match r with Obj rc => if isinst rc (C Plucker) || isinst rc (C Twist3) then Out (Value RBool Computed) else Out Raise | _ => Out Raise end.
+  match r with
+  | Obj rc => if isinst rc (C Plucker) || isinst rc (C Twist3) || (isinst rc (C Twist2) && (n =? 3)) then Out (Value RBool Computed) else Out Raise
+  | _ => Out Raise
+  end.
 (* :623  not isparallel(l2) and abs(l1 * l2) < ...  (generic operands are not parallel, so the product is evaluated) *)
 Definition Plucker_xor (lc : cls) (r : kind) : mres :=
   match Plucker_or lc r with
